@@ -73,7 +73,16 @@ package headers
 //@   props C02 C03 C09 C10 C14 C16 C17 C18
 //@   pure
 //@   allocs <= 0
-//@   trusted TEMPORARY until the C14 proof is complete
+//@   requires SetInv(set)
+//@   ensures C14.check_iff_approved: result == Approved(set, acrhs)
+//@   loop 0 invariant -1 <= rangeindex && rangeindex < len(acrhs)
+//@   loop 0 invariant -1 <= posOfLastNameSeen && posOfLastNameSeen < len(set.elems) && 0 <= emptyElements && emptyElements <= 16
+//@   loop 0 invariant C14.outer: Approved(set, acrhs) == ApprL(set, acrhs, rangeindex + 1, posOfLastNameSeen, emptyElements)
+//@   loop 0 decreases len(acrhs) - rangeindex
+//@   loop 1 invariant -1 <= rangeindex && rangeindex + 1 < len(acrhs)
+//@   loop 1 invariant -1 <= posOfLastNameSeen && posOfLastNameSeen < len(set.elems) && 0 <= emptyElements && emptyElements <= 16
+//@   loop 1 invariant C14.inner: Approved(set, acrhs) == ApprE(set, acrhs, rangeindex + 1, acrh, comma(acrh), lead(acrh[:comma(acrh)]), trail(acrh[:comma(acrh)]), posOfLastNameSeen, emptyElements)
+//@   loop 1 decreases len(acrh) + 1
 
 //@ func IsValid
 //@   props C04 C05 C15 C17
